@@ -19,7 +19,7 @@ class Mul(Opcode):
             f_result = to_unsigned(result, 32)
             processor.registers.set(self.d, f_result)
             if self.setflags:
-                processor.registers.cpsr.n = bit_at(result, 31)
-                processor.registers.cpsr.z = 0 if result else 1
+                processor.registers.cpsr.n = bit_at(f_result, 31)
+                processor.registers.cpsr.z = 0 if f_result else 1
                 if arch_version() == 4:
                     processor.registers.cpsr.c = 0  # unknown
